@@ -88,6 +88,7 @@ type Task struct {
 	blockedOn string
 	vc        vclock
 	sleeping  bool
+	countedBlock bool // this stay in external state was already counted as a real block
 }
 
 // Event is one entry of the run's event log.
@@ -135,7 +136,8 @@ type Result struct {
 	LogHash    uint64
 	SchedHash  uint64
 	Log        []Event
-	SimTime    time.Duration
+	SimTime    time.Duration // simulated time until task 1 returned (until the end of the run if it never did)
+	ChanBlocks int           // times a task was found really blocked in a channel operation (not a sleep)
 	Pairs      map[[2]int]struct{} // (site->site) context switches observed
 	Idles      int
 	TimerJumps int
@@ -158,6 +160,7 @@ type Sim struct {
 	fair     bool
 	idleQ    time.Duration
 	lastSite int
+	mainDoneAt time.Duration
 	epoch    int  // incremented on every progress event (wake, post, spawn, done)
 	progress bool // a progress event happened since the last idle
 }
@@ -212,6 +215,9 @@ func Run(t *testing.T, cfg Config, main func()) (res *Result) {
 			s.spawn(nil, "main", main)
 			s.controller()
 			res.SimTime = time.Since(s.start)
+			if s.mainDoneAt > 0 || s.tasks[0].state == stDone {
+				res.SimTime = s.mainDoneAt
+			}
 			res.Tasks = len(s.tasks)
 			res.MainDone = s.tasks[0].state == stDone
 			res.MainActive = s.tasks[0].state == stRunnable || s.tasks[0].state == stRunning
@@ -260,6 +266,9 @@ func (s *Sim) spawn(parent *Task, name string, f func()) *Task {
 			}
 			s.mu.Lock()
 			t.state = stDone
+			if t.ID == 1 {
+				s.mainDoneAt = time.Since(s.start)
+			}
 			s.epoch++
 			s.progress = true
 			s.mu.Unlock()
@@ -307,6 +316,10 @@ func (s *Sim) controller() {
 		for _, t := range s.tasks {
 			if t.state != stDone {
 				alive++
+			}
+			if t.state == stExternal && !t.sleeping && !t.countedBlock {
+				t.countedBlock = true
+				res.ChanBlocks++
 			}
 			if t.state == stRunnable {
 				runnable = append(runnable, t.ID)
@@ -674,6 +687,7 @@ func Post(h *Handle) {
 	aborted := s.aborted
 	if !aborted {
 		t.state = stRunnable
+		t.countedBlock = false
 		t.why = whyPost
 		s.epoch++
 		s.progress = true
